@@ -617,5 +617,22 @@ func checkContextValuesCopiedAsGiven(w *World, r *Report) {
 			r.bad("R18.5", ssaName(fn), construct, w.posOf(in.Pos()), "the value stored in the context is computed from the caller's value ("+v.String()+") instead of being that value: every filter and test then sees another kind of value than the caller passed — a typed slice with its own text form reaches escape as a list")
 		})
 	}
+	// maps.Copy(ctx.context, m) copies every value as it is
+	for _, fn := range w.pkgFuncs() {
+		instrsOf(fn, func(in ssa.Instruction) {
+			c, ok := in.(*ssa.Call)
+			if !ok {
+				return
+			}
+			dst, _, ok := mapsCopyCall(c)
+			if !ok {
+				return
+			}
+			if _, ok := fieldLoad(unspill(dst), "RenderContext", "context"); ok {
+				n++
+				r.ok("R18.5", ssaName(fn), "values copied from the caller's map as they are", w.posOf(in.Pos()), "maps.Copy", false)
+			}
+		})
+	}
 	r.floor("copies of a caller's map into a render context", n, 1)
 }
